@@ -227,6 +227,23 @@ def build_cases(ck, tmp, variant=0):
             f2 = dict(files)
             f2[cp] = child_bytes
             cases.append((desc, f2, {"kind": "dependency_path", "alg": alg, "depth": depth, "child": child_bytes}))
+            # the parent carries its OWN integrated payload next to the dependency (both orders of the two members)
+            own = blob(33 + depth, 60 + depth + variant)
+            op = fpath(own, "own_fw.bin")
+            for first in ("payloads", "dependencies"):
+                extra = {}
+                if first == "payloads":
+                    extra["suit-integrated-payloads"] = {"#own": op}
+                extra["suit-integrated-dependencies"] = {"#child": cp if depth == 2 else json.loads(json.dumps(child))}
+                if first == "dependencies":
+                    extra["suit-integrated-payloads"] = {"#own": op}
+                desc = base_env({"suit-install": [{"suit-directive-override-parameters": {
+                    "suit-parameter-image-digest": {"suit-digest-algorithm-id": alg, "suit-digest-bytes": {"envelope": cp}},
+                    "suit-parameter-image-size": {"envelope": cp}}}]}, extra)
+                f3 = dict(f2)
+                f3[op] = own
+                cases.append((desc, f3, {"kind": "dependency_path", "alg": alg, "depth": depth, "child": child_bytes, "own": own,
+                                         "form": f"own payload next to the dependency, {first} first"}))
     # a dependency file that was NOT produced by this tool's create: text-keyed members interleave payloads and a nested envelope
     # (parse-then-serialise would regroup them) — it must be embedded byte for byte, whatever its extension
     import hashlib as _h
@@ -270,6 +287,9 @@ def oracle(expect, data, files):
         child = expect["child"]
         if env.get("#child") != child:
             return "dependency is not embedded byte-identically to what creating it on its own produces"
+        if "own" in expect and env.get("#own") != expect["own"]:
+            got = env.get("#own")
+            return f"the parent's own payload #own ({None if got is None else len(got)} bytes) is not the file content ({len(expect['own'])} bytes)"
         cman = cw.envelope_members(child)[3]
         wrapped = child[cman.start:cman.end]
         pd = dict(params)
